@@ -24,7 +24,7 @@ from comb_spec_searcher.rule_db.forest import ForestRuleExtractor, TableMethod
 from comb_spec_searcher.typing import ForestRuleKey, RuleBucket
 
 ID = "C11"
-QUICK_RUNS = 8000
+QUICK_RUNS = 6000
 CHUNK = 100
 THOROUGH_BUDGET_S = 600
 LEVEL = "exploration"
@@ -72,7 +72,7 @@ def gen(rng, tier):
     return {"layer": "int", "rules": rules, "root": root, "ops": ops}
 
 
-SEARCH_FRACTION = 0.0  # raised once the SEARCH harness exists
+SEARCH_FRACTION = 0.25
 
 
 class _DB:
@@ -106,40 +106,47 @@ def execute(R, ctx):
     ext = ForestRuleExtractor(root, _DB(tm), None, None)
     ext.check()
     needed = [(k.parent, tuple(k.children), tuple(k.shifts), k.bucket.name) for k in ext.needed_rules]
+    check_extraction(delivered, needed, root, ctx)
+    ctx.set_state((sorted(map(repr, delivered)), [op[1] for op in R["ops"]]))
+
+
+def check_extraction(delivered, needed, root, ctx, tag=""):
+    """Oracle on the extracted keys (used by both layers)."""
+    triples = [d[:3] for d in delivered]
     ctx.ev("needed", needed)
     pool = list(delivered)
     for k in needed:
         if k in pool:
             pool.remove(k)
         else:
-            raise Violation("not-a-subset", f"extracted key {k} was not delivered (or used more often than delivered); delivered={delivered}")
+            raise Violation(tag + "not-a-subset", f"extracted key {k} was not delivered (or used more often than delivered); delivered={delivered}")
     lhs = [k[0] for k in needed]
     if len(set(lhs)) != len(lhs):
-        raise Violation("duplicate-lhs", f"two extracted rules share a left-hand side: {needed}")
+        raise Violation(tag + "duplicate-lhs", f"two extracted rules share a left-hand side: {needed}")
     mentioned = set(lhs)
     for k in needed:
         mentioned.update(k[1])
     if root not in lhs:
-        raise Violation("root-without-rule", f"root {root} has no extracted rule: {needed}")
+        raise Violation(tag + "root-without-rule", f"root {root} has no extracted rule: {needed}")
     if mentioned - set(lhs):
-        raise Violation("not-closed", f"labels {sorted(mentioned - set(lhs))} are mentioned but have no rule: {needed}")
+        raise Violation(tag + "not-closed", f"labels {sorted(mentioned - set(lhs))} are mentioned but have no rule: {needed}")
     nt = [k[:3] for k in needed]
     if not L.pumps(nt, root):
-        raise Violation("not-productive", f"root {root} does not pump in the extracted rules {needed}")
+        raise Violation(tag + "not-productive", f"root {root} does not pump in the extracted rules {needed}")
     f = L.lfp(nt)
     for l in mentioned:
         if f.get(l, 0) != L.INF:
-            raise Violation("class-not-productive", f"class {l} of the extracted set is not infinite in its own LFP: {needed}")
+            raise Violation(tag + "class-not-productive", f"class {l} of the extracted set is not infinite in its own LFP: {needed}")
     for i in range(len(nt)):
         rest = nt[:i] + nt[i + 1 :]
         if L.pumps(rest, root):
-            raise Violation("not-minimal", f"rule {needed[i]} can be removed and the root still pumps: {needed}")
+            raise Violation(tag + "not-minimal", f"rule {needed[i]} can be removed and the root still pumps: {needed}")
     no_rev = [d[:3] for d in delivered if d[3] != "REVERSE"]
     used_rev = [k for k in needed if k[3] == "REVERSE"]
     if used_rev:
         ctx.probe("reverse_rule_in_extraction")
         if L.pumps(no_rev, root):
-            raise Violation("unnecessary-reverse", f"reverse keys {used_rev} used although the root pumps without any reverse rule; delivered={delivered}")
+            raise Violation(tag + "unnecessary-reverse", f"reverse keys {used_rev} used although the root pumps without any reverse rule; delivered={delivered}")
     elif any(d[3] == "REVERSE" for d in delivered):
         ctx.probe("reverse_available_but_avoided")
     inf = {l for l, v in L.lfp(triples).items() if v == L.INF}
@@ -150,7 +157,6 @@ def execute(R, ctx):
         raise HarnessError(str(e)) from e
     ctx.stat("needed_rules", len(needed))
     ctx.stat("subuniverse_rules", len(sub))
-    ctx.set_state((sorted(map(repr, delivered)), [op[1] for op in R["ops"]]))
     ctx.nontrivial = len(needed) >= 2 and len(needed) < len(set(sub))
 
 
